@@ -49,6 +49,7 @@ type eparams struct {
 	depth, post int
 	scales      [][2]int
 	hot         []int // key groups whose subject the histories touch
+	second      bool  // optionally rescale a second time
 }
 
 func endToEnd(k *report.Check) {
@@ -57,7 +58,9 @@ func endToEnd(k *report.Check) {
 		scales = [][2]int{{2, 1}, {1, 2}, {3, 2}, {2, 3}, {3, 1}, {1, 3}, {2, 2}, {4, 3}, {3, 4}}
 	}
 	p := eparams{depth: k.Pick(3, 4), post: 1, scales: scales, hot: []int{1, 2}}
-	k.ExploreProc(fmt.Sprintf("stores/d=%d+%d", p.depth, p.post), mc.Config{}, p, e2eBody)
+	k.ExploreProc(fmt.Sprintf("stores/d=%d+%d", p.depth, p.post), mc.Config{Deadline: k.Within(0.5)}, p, e2eBody)
+	p2 := eparams{depth: k.Pick(2, 3), post: 1, scales: [][2]int{{1, 2}, {2, 3}, {1, 3}}[:k.Pick(2, 3)], hot: []int{1, 2}, second: true}
+	k.ExploreProc(fmt.Sprintf("stores-two-rescales/d=%d+%d", p2.depth, p2.post), mc.Config{}, p2, e2eBody)
 }
 
 // always answers that the table is still needed: deleting shared tables is C09's subject
@@ -207,44 +210,52 @@ func e2eBody(c *mc.Ctx) {
 		}
 		mutate(olds, step, op-1)
 	}
-	// checkpoint every old operator; the job records them in the enumerated order
-	handles := make([]recovery.CheckpointHandle, m)
-	for i, s := range olds {
-		h, err := s.db.Checkpoint(1)()
-		if err != nil {
-			c.Failf("checkpoint of old operator %d: %v", i, err)
-		}
-		handles[i] = h
-	}
-	from := make([]partitioning.KeyGroupRange, m)
-	recorded := make([]recovery.CheckpointHandle, m)
-	for i, j := range perm {
-		from[i], recorded[i] = oldRanges[j], handles[j]
-	}
-	newRanges := partitioning.NewKeySpace(groups, n).KeyGroupRanges()
-	assigned := partitioning.AssignRanges(newRanges, from)
-	news := make([]*store, n)
-	for i := range news {
-		var hs []recovery.CheckpointHandle
-		for _, j := range assigned[i] {
-			hs = append(hs, recorded[j])
-		}
-		var nr []partitioning.KeyGroupRange
-		var no []proto.Operator
-		for j := range news {
-			if j != i {
-				nr = append(nr, newRanges[j])
-				no = append(no, &needyNeighbour{})
+	// rescale checkpoints every operator of one generation (the job records the checkpoints in the
+	// given order), distributes the handles with the real AssignRanges and opens the next generation
+	gen := 0
+	rescale := func(prev []*store, prevRanges []partitioning.KeyGroupRange, n int, perm []int) ([]*store, []partitioning.KeyGroupRange) {
+		gen++
+		m := len(prev)
+		handles := make([]recovery.CheckpointHandle, m)
+		for i, s := range prev {
+			h, err := s.db.Checkpoint(uint64(gen))()
+			if err != nil {
+				c.Failf("checkpoint %d of operator %d: %v", gen, i, err)
 			}
+			handles[i] = h
 		}
-		opts := o.DBOptions(root.WithWorkingDir(fmt.Sprintf("%s/new%d", base, i)))
-		opts.DataOwnership = operator.VerifNewOperatorPartition(newRanges[i], nr, no)
-		db := dkv.Open(opts, hs)
-		if err := db.WaitOnTasks(); err != nil {
-			c.Failf("background task of new operator %d failed: %v", i, err)
+		from := make([]partitioning.KeyGroupRange, m)
+		recorded := make([]recovery.CheckpointHandle, m)
+		for i, j := range perm {
+			from[i], recorded[i] = prevRanges[j], handles[j]
 		}
-		news[i] = newStore(db, n, newRanges[i])
+		newRanges := partitioning.NewKeySpace(groups, n).KeyGroupRanges()
+		assigned := partitioning.AssignRanges(newRanges, from)
+		news := make([]*store, n)
+		for i := range news {
+			var hs []recovery.CheckpointHandle
+			for _, j := range assigned[i] {
+				hs = append(hs, recorded[j])
+			}
+			var nr []partitioning.KeyGroupRange
+			var no []proto.Operator
+			for j := range news {
+				if j != i {
+					nr = append(nr, newRanges[j])
+					no = append(no, &needyNeighbour{})
+				}
+			}
+			opts := o.DBOptions(root.WithWorkingDir(fmt.Sprintf("%s/gen%d-op%d", base, gen, i)))
+			opts.DataOwnership = operator.VerifNewOperatorPartition(newRanges[i], nr, no)
+			db := dkv.Open(opts, hs)
+			if err := db.WaitOnTasks(); err != nil {
+				c.Failf("background task of new operator %d failed: %v", i, err)
+			}
+			news[i] = newStore(db, n, newRanges[i])
+		}
+		return news, newRanges
 	}
+	news, newRanges := rescale(olds, oldRanges, n, perm)
 	check := func(when string) {
 		for kg, sub := range subjectOf {
 			owner := ownerOf(news, kg)
@@ -273,6 +284,19 @@ func e2eBody(c *mc.Ctx) {
 		mutate(news, p.depth+step, op-1)
 		check("after an update following the restore")
 	}
+	all := append(slices.Clone(olds), news...)
+	if p.second && c.Choose(2) == 1 {
+		// a second rescale (back to one operator or to the first operator count), whose checkpoints
+		// include whatever the first restore left in the new operators' databases
+		k2 := []int{1, m}[c.Choose(2)]
+		ps2 := perms(len(news))
+		perm2 := ps2[c.Choose(len(ps2))]
+		c.Op("[second rescale %d -> %d operators, checkpoints recorded in order %v]", len(news), k2, perm2)
+		news, newRanges = rescale(news, newRanges, k2, perm2)
+		all = append(all, news...)
+		check("after the second restore")
+	}
+	_ = newRanges
 	// fill the memtables so that they are flushed and compacted with the restored tables
 	for round := 0; round < 3; round++ {
 		for kg := range subjectOf {
@@ -329,7 +353,7 @@ func e2eBody(c *mc.Ctx) {
 			c.FailSig(sig, "new operator %d %v holds the timers of %v, the timers set and not fired for its key groups are %v", i, s.r, got, wantT)
 		}
 	}
-	for _, s := range append(slices.Clone(olds), news...) {
+	for _, s := range all {
 		s.db.WaitOnTasks()
 	}
 	if rewrites > 0 && m != n {
